@@ -52,6 +52,10 @@ def find_impl(repo, c: Contract, ctx):
                         return FuncInfo(n, outer.module, None, "function", outer.path)
         return fi
     cls, name = parts[0], parts[1]
+    if "@" in name:
+        # "Base.method@Receiver": the body defined in Base, executed with a Receiver object
+        name = name.split("@")[0]
+        return repo.classes[cls].methods.get(name) if cls in repo.classes else None
     if c.kind == "property":
         return repo.find_getter(ctx or cls, name)
     if c.kind == "setter":
@@ -110,6 +114,10 @@ def run_function(eng: Engine, c: Contract, ctx, fi: FuncInfo, alias=None, lemma_
     for g, ts in c.ghost.items():
         env[g] = ex.fresh(st, parse_type(ts), g)
     st.env = dict(env)
+    for lname, ltext in c.let:
+        env[lname] = ex.spec_eval(st, ltext, env, f"{c.key}.let.{lname}")
+    st.env = dict(env)
+    ex.let_names = [n for n, _ in c.let]
     # preconditions
     for name, text in c.requires:
         st.pc.append(ex.spec_truth(st, text, env, f"{c.key}.requires.{name}"))
